@@ -497,7 +497,11 @@ def canon_real_events(b, rec, arg2idx):
             out.append(["ran", arg2idx.get(x, -1), [v, o, name_json("%s_v%d" % (orig, v))], x])
         elif r[0] == "cb":
             _, cbid, res, err = r
-            if res is None:
+            if err == 5 and res is None:
+                out.append(["cbOpen", cbid])             # (None, FAIL_REASON.LEADER_CHANGED): D61
+            elif err not in (0, 3):
+                out.append(["cb?", cbid, repr(res), err])  # a reason the model does not know: shows up as a diff
+            elif res is None:
                 out.append(["cb", cbid, None, err == 0])
             elif isinstance(res, KeyError):
                 out.append(["cb", cbid, ["keyError", res.args[0]], err == 0])
